@@ -44,7 +44,7 @@ _READER_TARGETS = [
 ]
 
 
-@contract("project_header_roundtrip", ["C01"], targets=_WRITER_TARGETS[:3] + _READER_TARGETS[:10])
+@contract("project_header_roundtrip", ["C01", "C12"], targets=_WRITER_TARGETS[:3] + _READER_TARGETS[:10])
 def project_header_roundtrip(H, _):
     """Every project-level setting, each ranging over the full width of its chunk's integer type,
     survives write_to + read_sunvox_file; TIME/REPS may be omitted only when 0."""
